@@ -157,6 +157,10 @@ def families(tier, seed):
     yield Instance("uniform-two-blocks", mol(tok("N"), sto("[>]", [a], [], "[<]", "uniform(10, 90)"), sto("[>]", [b], [], "[<]", "uniform(20, 80)"), tok("F")), menu=(0.1, 0.5, 0.9), family="draw-menu")
     if thorough:
         yield Instance("gauss-menu", mol(tok("N"), sto("[>]", [a, b], [], "[<]", "gauss(50, 20)"), tok("F")), menu=(0.02, 0.3, 0.7, 0.98), family="draw-menu")
+    # 11b. double / triple bond descriptors
+    yield Instance("double-polyene", mol(sto("[]", ["[$]=CC=[$]"], ["[$]=O", "[$]=C"], "[]", g0(60.0))), family="bond-order")
+    yield Instance("double-mixed", mol(tok("N"), sto("[$]", ["[$]C(=[$])C=[$]", "[$]CC[$]"], ["[$]=O", "[$][H]"], "[$]", g0(60.0)), tok("F")), family="bond-order")
+    yield Instance("triple-dir", mol(sto("[]", ["[<]#CC#[>]", "[<]#CCC#[>]"], ["[>]#N", "[<]#C"], "[]", g0(60.0))), family="bond-order")
     # 12. bare stochastic object with open ends / molecule without suffix
     yield Instance("open-right", mol(tok("N"), sto("[>]", [a, b], [], "[<]", g0(40.0))), family="open-ends")
     # 13. aromatic / charged / ring unit mixes
